@@ -5,10 +5,10 @@ namespace Driver.D_be_nn
 def handle (fn : String) (args : List Json) : String :=
   match fn with
   | "_checksum" => match args with
-    | [t, a0] => (do let today ← Wire.decDate t; let x0 ← Wire.decStr a0; pure (Wire.respondWith Wire.encInt (Gen.be_nn._checksum today x0)) : Option String).getD "badargs"
+    | [t, a0] => (do let today__ ← Wire.decDate t; let x0 ← Wire.decStr a0; pure (Wire.respondWith Wire.encInt (Gen.be_nn._checksum today__ x0)) : Option String).getD "badargs"
     | _ => "badargs"
   | "_get_birth_date_parts" => match args with
-    | [t, a0] => (do let today ← Wire.decDate t; let x0 ← Wire.decStr a0; pure (Wire.respondWith (Wire.encT3 (Wire.encOpt Wire.encInt) (Wire.encOpt Wire.encInt) (Wire.encOpt Wire.encInt)) (Gen.be_nn._get_birth_date_parts today x0)) : Option String).getD "badargs"
+    | [t, a0] => (do let today__ ← Wire.decDate t; let x0 ← Wire.decStr a0; pure (Wire.respondWith (Wire.encT3 (Wire.encOpt Wire.encInt) (Wire.encOpt Wire.encInt) (Wire.encOpt Wire.encInt)) (Gen.be_nn._get_birth_date_parts today__ x0)) : Option String).getD "badargs"
     | _ => "badargs"
   | "compact" => match args with
     | [a0] => (do let x0 ← Wire.decStr a0; pure (Wire.respondWith Wire.encStr (Gen.be_nn.compact x0)) : Option String).getD "badargs"
@@ -17,19 +17,19 @@ def handle (fn : String) (args : List Json) : String :=
     | [a0] => (do let x0 ← Wire.decStr a0; pure (Wire.respondWith Wire.encStr (Gen.be_nn.format x0)) : Option String).getD "badargs"
     | _ => "badargs"
   | "get_birth_month" => match args with
-    | [t, a0] => (do let today ← Wire.decDate t; let x0 ← Wire.decStr a0; pure (Wire.respondWith (Wire.encOpt Wire.encInt) (Gen.be_nn.get_birth_month today x0)) : Option String).getD "badargs"
+    | [t, a0] => (do let today__ ← Wire.decDate t; let x0 ← Wire.decStr a0; pure (Wire.respondWith (Wire.encOpt Wire.encInt) (Gen.be_nn.get_birth_month today__ x0)) : Option String).getD "badargs"
     | _ => "badargs"
   | "get_birth_year" => match args with
-    | [t, a0] => (do let today ← Wire.decDate t; let x0 ← Wire.decStr a0; pure (Wire.respondWith (Wire.encOpt Wire.encInt) (Gen.be_nn.get_birth_year today x0)) : Option String).getD "badargs"
+    | [t, a0] => (do let today__ ← Wire.decDate t; let x0 ← Wire.decStr a0; pure (Wire.respondWith (Wire.encOpt Wire.encInt) (Gen.be_nn.get_birth_year today__ x0)) : Option String).getD "badargs"
     | _ => "badargs"
   | "get_gender" => match args with
     | [a0] => (do let x0 ← Wire.decStr a0; pure (Wire.respondWith Wire.encStr (Gen.be_nn.get_gender x0)) : Option String).getD "badargs"
     | _ => "badargs"
   | "is_valid" => match args with
-    | [t, a0] => (do let today ← Wire.decDate t; let x0 ← Wire.decStr a0; pure (Wire.respondWith Wire.encBool (Gen.be_nn.is_valid today x0)) : Option String).getD "badargs"
+    | [t, a0] => (do let today__ ← Wire.decDate t; let x0 ← Wire.decStr a0; pure (Wire.respondWith Wire.encBool (Gen.be_nn.is_valid today__ x0)) : Option String).getD "badargs"
     | _ => "badargs"
   | "validate" => match args with
-    | [t, a0] => (do let today ← Wire.decDate t; let x0 ← Wire.decStr a0; pure (Wire.respondWith Wire.encStr (Gen.be_nn.validate today x0)) : Option String).getD "badargs"
+    | [t, a0] => (do let today__ ← Wire.decDate t; let x0 ← Wire.decStr a0; pure (Wire.respondWith Wire.encStr (Gen.be_nn.validate today__ x0)) : Option String).getD "badargs"
     | _ => "badargs"
   | _ => "nofunc"
 end Driver.D_be_nn
